@@ -219,7 +219,7 @@ class C15(Prop):
         "columnSubset_ok_of_few_pk", "reasonableRF_cons_shape_partial", "wussNopseudo_pairs", "wussFull_total", "flushLeftInserts_inplace", "kh_roundtrip_pairs", "transformed_wellformed", "generated_wf_side_conditions",
         # round 6
         "reasonableRF_cons_no_alphabet", "reasonableRF_cons_digital", "reasonableRF_cons_text_eq_digital", "reasonableRF_cons_text_shape", "generated_text_cells", "reasonableRF_threshold_exact",
-        "setStr_frame", "setStr_stores", "formatStr_is_setStr", "markFragments_threshold_exact", "sample_wellformed", "setStr_wellformed", "generated_abcOk", "history_wellformed", "exRfText_inv", "history_wellformed_markup")]
+        "setStr_frame", "setStr_stores", "formatStr_is_setStr", "markFragments_threshold_exact", "sample_wellformed", "setStr_wellformed", "generated_abcOk", "history_wellformed", "exRfText_inv", "history_wellformed_markup", "expand_spec")]
     claimed = True
     technique = ("Lean 4 proof about an executable hand model of esl_msa.c / esl_wuss.c (in-place compaction loop = filter-by-mask on every aligned field, well-formedness invariants, "
                  "tag-table rebuild of SequenceSubset, mode-conversion and reverse-complement identities over alphabet tables regenerated from the tree, 27-stack WUSS reader = 27 Dyck recognisers, "
@@ -238,7 +238,8 @@ class C15(Prop):
                   "after repair + compaction for SS_cons and every per-sequence SS through every column-removing entry point. "
                   "Round 6: ReasonableRF(useconsseq) in every branch incl. the repaired text branch, exact rational thresholds of ReasonableRF / MarkFragments, the Set*/Format* family, esl_msa_Sample for every random source. "
                   "monitors restate the property on the implementation's own dumps against independent Python readers.")
-    level_note = ("Round 6: esl_msa_ReasonableRF(useconsseq=TRUE) as repaired by 0c757a4 in every branch (known finding retired): reasonableRF_cons_no_alphabet (eslEINVAL), reasonableRF_cons_text_eq_digital "
+    level_note = ("Round 6b: history_wellformed_markup (AddComment / AddGF / AddGS / AppendGR / AppendGC anywhere in a history, parser contract stated in the step) and expand_spec (esl_msa_Expand on a growable alignment: every per-sequence array and GS/GR row doubled, old slots in place, new slots NULL / -1.0 / 0; ops grow / expand compared slot by slot). "
+                  "Round 6: esl_msa_ReasonableRF(useconsseq=TRUE) as repaired by 0c757a4 in every branch (known finding retired): reasonableRF_cons_no_alphabet (eslEINVAL), reasonableRF_cons_text_eq_digital "
                   "(text branch with a caller-supplied alphabet = digital branch on esl_msa_Digitize's result, for every threshold / weights / arithmetic), reasonableRF_cons_text_shape, generated_text_cells; "
                   "thresholds in exact arithmetic over Q with the code's own comparisons: reasonableRF_threshold_exact (r > 0 && r/totwgt >= symfrac), markFragments_threshold_exact (span < (int) ceil(t*alen) iff span < t*alen); "
                   "the Set*/Format* family (7 + 7 functions, explicit length n, NULL erasure, idx >= nseq / NULL name refused with eslEINCONCEIVABLE resp. eslEINVAL): setStr_frame, setStr_stores, formatStr_is_setStr; "
@@ -277,7 +278,7 @@ class C15(Prop):
                    "with an alphabet lent by the harness and only on rows whose letters belong to it (a foreign letter makes esl_abc_FCount read degen[255]: caller contract, model = fault, not generated)",
                    "esl_sq.c: FetchFromMSA, Digitize, Textize, ReverseComplement, ConvertDegen2X are modelled on the observable content of the sequence object (name/acc/desc/source, residues, ss, extra "
                    "markup, start/end, mode)",
-                   "esl_msa_Sample is modelled over an arbitrary source of 32-bit words (driver: the Mersenne Twister model of C09), its double comparisons esl_random() < 0.1 / 0.02 / 0.7 as exact integer thresholds on the raw word; esl_msa_Set*/Format* are modelled with sqalloc = nseq (true of every alignment the library hands out); not modelled: esl_msa_GuessAlphabet, esl_msa_Expand/Sizeof, esl_sq_Copy/Compare/Grow/Block*/CountResidues/Checksum"]
+                   "esl_msa_Sample is modelled over an arbitrary source of 32-bit words (driver: the Mersenne Twister model of C09), its double comparisons esl_random() < 0.1 / 0.02 / 0.7 as exact integer thresholds on the raw word; esl_msa_Set*/Format* are modelled with sqalloc = nseq (true of every alignment the library hands out); esl_msa_Expand is modelled on the per-sequence arrays of a growable alignment (op grow: every slot printed); not modelled: esl_msa_GuessAlphabet, esl_msa_Sizeof, esl_sq_Copy/Compare/Grow/Block*/CountResidues/Checksum"]
     rule = ("cases = construction of a random annotated alignment + chain of transformations with a full dump after each, or WUSS conversions; "
             "non-trivial = at least two successful operations and no fault; distinct by implementation output trace")
     quick_budget_s = 60
@@ -769,6 +770,7 @@ class C15(Prop):
         for i in range(1000 if quick else 15000): out.append(self.sq_case(rng, i))
         for i in range(600 if quick else 10000): out.append(self.wuss_edge_case(rng, i))
         for i in range(300 if quick else 5000): out.append(self.sample_case(rng, i))
+        for i in range(300 if quick else 4000): out.append(self.grow_case(rng, i))
         for i in range(400 if quick else 6000):
             c = self.msa_case(rng, i, nseq_fix=rng.choice([1, 2, 15, 16, 17, 31, 32, 33, 33]), alen_fix=rng.choice([0, 1, 1, 2, 3, 5, 9, 16, 17]), steps=(4, 10), hist=True)
             c["name"] = "hist%d" % i; out.append(c)
@@ -832,6 +834,11 @@ class C15(Prop):
                 if l != "ok": continue
                 A, B = B, A; pending = None; freshA, freshB = freshB, freshA
                 if A is not None and not hasattr(A, "line"): A.line = None
+            elif name == "grow":
+                f = self.check_grow(kv, l)
+                if f: return f
+            elif name == "expand":
+                if l not in ("einval exception", "bad-op"): return Failure("monitor", "esl_msa_Expand on an alignment that is not growable (alen >= 0) must throw eslEINVAL: " + l)
             elif name == "sample":
                 freshA = False; pending = None; pendset = None
                 if l != "ok": return Failure("monitor", "esl_msa_Sample failed: " + l)
@@ -1069,6 +1076,43 @@ class C15(Prop):
         if " ".join(toks) != after:
             return Failure("monitor", "%s: the alignment afterwards is not the alignment before with exactly that field replaced by %r" % (what, new))
         return None
+
+    def check_grow(self, kv, l):
+        """esl_msa_Expand on a growable alignment, k times: sqalloc = n * 2^k; every old slot keeps its content; every new slot is
+        NULL / weight -1.0 / length 0; optional arrays that did not exist still do not; every GS/GR row has sqalloc slots"""
+        n, k = int(kv["n"]), int(kv["k"])
+        if l == "bad-op": return None
+        if not l.startswith("ok sqalloc="): return Failure("monitor", "esl_msa_Expand failed: " + l[:60])
+        w = l.split(); total = n * 2 ** k
+        if int(w[1].split("=")[1]) != total: return Failure("monitor", "esl_msa_Expand x%d from %d slots: sqalloc %s, expected %d" % (k, n, w[1], total))
+        named, opt = min(int(kv.get("named", 0)), n), int(kv.get("opt", 0)); acc, desc = int(kv.get("acc", -1)), int(kv.get("desc", -1))
+        sl = [x[3:].split(",") for x in w[2:] if x.startswith("sl=")]
+        if len(sl) != total: return Failure("monitor", "esl_msa_Expand: %d slots printed for sqalloc %d" % (len(sl), total))
+        for i, f in enumerate(sl):
+            want = [hx("q%d" % i) if i < named else "~", "bff0000000000000", "0", "~"]
+            want += ["~:0" if opt & b else "." for b in (1, 2, 4)]
+            want += ["." if acc < 0 else (hx("AC") if i == acc else "~"), "." if desc < 0 else (hx("d") if i == desc else "~")]
+            if f != want: return Failure("monitor", "esl_msa_Expand: slot %d of %d is %r, expected %r" % (i, total, f, want))
+        for kind, cnt, val in (("gs", min(int(kv.get("gs", 0)), 8), "v"), ("gr", min(int(kv.get("gr", 0)), 8), "x")):
+            rows = [x[3:].split(",") for x in w[2:] if x.startswith(kind + "=")]
+            if len(rows) != cnt: return Failure("monitor", "esl_msa_Expand: %d %s rows, expected %d" % (len(rows), kind, cnt))
+            for t, r in enumerate(rows):
+                if r != [hx(("T" if kind == "gs" else "R") + str(t))] + [hx(val) if i == t % n else "~" for i in range(total)]:
+                    return Failure("monitor", "esl_msa_Expand: %s row %d is not the old row followed by NULL slots" % (kind, t))
+        return None
+
+    def grow_case(self, rng, idx):
+        """growable alignments (esl_msa_Create(n, -1)) at the allocation sizes the parsers start from and meet (1, 2, 15, 16, 17, 32, 33 ...),
+        with and without each optional per-sequence array and unparsed GS/GR rows, expanded 0-4 times; Expand on a fixed-width alignment"""
+        ops = []
+        for _ in range(rng.randrange(1, 5)):
+            n = rng.choice([1, 2, 3, 8, 15, 16, 16, 17, 31, 32, 33, 64])
+            ops.append("grow n=%d k=%d named=%d opt=%d acc=%d desc=%d gs=%d gr=%d" % (
+                n, rng.choice([0, 1, 1, 2, 3, 4]) if n <= 17 else rng.choice([0, 1, 2]), rng.choice([0, 1, n, rng.randrange(n + 1)]), rng.randrange(8),
+                rng.choice([-1, 0, n - 1, rng.randrange(n)]), rng.choice([-1, -1, 0, n - 1]), rng.choice([0, 0, 1, 2, 5]), rng.choice([0, 0, 1, 3])))
+        if rng.random() < 0.5:
+            ops += ["new nseq=%d alen=%d" % (rng.choice([1, 16, 17]), rng.choice([0, 1, 5])), "dump", "expand", "dump", "validate"]
+        return {"name": "grow%d" % idx, "ops": ops, "sticky": 0}
 
     def check_sample(self, kv, d):
         """esl_msa_Sample: a digital alignment of 1..max_nseq sequences and 1..max_alen columns, every cell a residue or the gap code
